@@ -63,6 +63,7 @@ PoolSets ==
                                                     Bin("=", SelfDot, Lit("1")), Rel1("following-sibling", NTName("a")),
                                                     Rel1("ancestor", NTName("a"))})>>
       [] Family = "C03cont" -> [i \in 1 .. 12 |-> PoolC03cont({SetToSeq(AllAxes)[i]})]
+      [] Family = "C03nested" -> [i \in 1 .. 4 |-> PoolC03nested({<<"child", "descendant", "following-sibling", "ancestor">>[i]})]
       [] Family = "C03paren" -> <<PoolC03paren(FlatPaths, 4)>>
       [] Family = "C07cmp"  -> PoolC07cmpSets
       [] Family = "C07bool" -> <<PoolC07bool>>
